@@ -24,6 +24,7 @@ API
 
 Mutation kinds: comment (end of line), comment-line (own line, any indentation, also inside brackets),
 backslash (continuation between two tokens), parens (redundant parentheses, optionally multi-line),
+bracket-newline (line break, optionally with a comment, between two tokens inside brackets),
 semicolon (join two simple statements / trailing ';'), oneliner (`if x:\\n    y` -> `if x: y`), tabs (tabs
 between tokens), tab-indent (re-indent a block with tabs), formfeed, blank (blank / whitespace lines,
 trailing whitespace), string (re-spell a literal: prefixes, 4 quote styles, escapes), concat (split into an
@@ -49,6 +50,7 @@ Tok = namedtuple("Tok", "type string start end srow scol erow ecol pdepth fdepth
 T = tokenize
 _INSIGNIFICANT = {T.NL, T.NEWLINE, T.COMMENT, T.INDENT, T.DEDENT, T.ENDMARKER}
 _FS = {T.FSTRING_START, T.FSTRING_MIDDLE, T.FSTRING_END}
+_EXACT = {T.STRING, T.COMMENT, T.NAME, T.NUMBER, T.OP, T.FSTRING_START, T.FSTRING_END}
 
 
 def line_starts(text):
@@ -72,6 +74,12 @@ def tokens(text):
         s = min(ls[sr - 1] + sc, n) if sr - 1 < len(ls) else n
         e = min(ls[er - 1] + ec, n) if er - 1 < len(ls) else n
         ty = t.type
+        # 3.12 reports the END column of a token spanning several lines in bytes (wrong after non-ASCII
+        # characters); the START is reliable, and for these token types .string is the exact source text
+        if ty in _EXACT and er != sr:
+            k = len(t.string)
+            if text[s:s + k] == t.string:
+                e = s + k
         if ty == T.FSTRING_START:
             out.append(Tok(ty, t.string, s, e, sr, sc, er, ec, pd, fd))
             fd += 1
@@ -404,6 +412,27 @@ def _m_parens(ctx, rnd):
     return [(s, s, o), (e, e, c)], tag
 
 
+def _m_bracket_newline(ctx, rnd):
+    """inside brackets a gap between two tokens becomes a line break (optionally with a comment)"""
+    g = [i for i in _gaps(ctx) if ctx.toks[i + 1].pdepth > 0 and ctx.toks[i + 1].fdepth == 0
+         and ctx.toks[i].fdepth == 0]
+    if not g:
+        return None
+    i = rnd.choice(g)
+    a, b = ctx.toks[i], ctx.toks[i + 1]
+    ind = rnd.choice(["", " ", "    ", "\t", " " * rnd.randint(0, 16), _indent_of(ctx.lines[a.srow - 1]) + "    "])
+    if "\f" in ind:
+        ind = ""
+    r = rnd.random()
+    if r < 0.7:
+        mid = "\n"
+    elif r < 0.85:
+        mid = "  " + rnd.choice(COMMENTS) + "\n"
+    else:
+        mid = "\n\n"
+    return [(a.end, b.start, mid + ind)], "bracket-newline"
+
+
 _SIMPLE = (ast.Expr, ast.Assign, ast.AugAssign, ast.AnnAssign, ast.Return, ast.Delete, ast.Pass, ast.Import,
            ast.ImportFrom, ast.Global, ast.Nonlocal, ast.Assert, ast.Raise, ast.Break, ast.Continue)
 if hasattr(ast, "TypeAlias"):
@@ -499,7 +528,7 @@ def _m_tab_indent(ctx, rnd):
         while k >= 1:
             ln = ctx.lines[k - 1]
             if ln.strip() and k not in inside and not ln.lstrip().startswith("#"):
-                pi = _indent_of(ln)
+                pi = _indent_of(ln).replace("\f", "")
                 if len(pi.expandtabs(8)) < len(body_ind.expandtabs(8)):
                     parent_ind = pi
                     break
@@ -837,7 +866,7 @@ def _m_ident(ctx, rnd):
 
 KINDS = {
     "comment": (_m_comment, 3.0), "comment-line": (_m_comment_line, 2.0), "backslash": (_m_backslash, 2.0),
-    "parens": (_m_parens, 2.0), "semicolon": (_m_semicolon, 1.5), "oneliner": (_m_oneliner, 0.5),
+    "parens": (_m_parens, 2.0), "bracket-newline": (_m_bracket_newline, 1.5), "semicolon": (_m_semicolon, 1.5), "oneliner": (_m_oneliner, 0.5),
     "tabs": (_m_tabs, 1.0), "tab-indent": (_m_tab_indent, 0.8), "formfeed": (_m_formfeed, 0.3),
     "blank": (_m_blank, 0.7), "string": (_m_string, 3.0), "concat": (_m_concat, 1.5),
     "fstring": (_m_fstring, 2.5), "number": (_m_number, 1.0), "ident-nfkc": (_m_ident_nfkc, 0.5),
